@@ -15,7 +15,7 @@ for spec in specs:
     fi, obl, fails = heapworld.verify_spec(spec)
     print("==", nm, "obligations:", len(obl), "struct:", [f.msg[:300] for f in fails])
     allobl += obl
-for name, hyps, goal in resolver.lemma_obligations():
+for name, hyps, goal in resolver.lemma_obligations() + (reg.glob_lemmas() if hasattr(reg, "glob_lemmas") else []):
     allobl.append(Obligation(name, "LEMMA", hyps, goal))
 t0=time.time()
 solve.discharge(allobl)
